@@ -55,3 +55,71 @@ def histories(tier):
         # every ordered pair
         return [list(p) for p in itertools.permutations(names, 2)]
     return [list(p) for p in itertools.permutations(names, 2)] + [list(p) for p in itertools.permutations(names, 3)]
+
+
+# ---------------------------------------------------------------------------------------------------------------------------------
+# (2) the SAME term-list object edited in place between two constructions on the same model / tree object
+
+def inplace_edits():
+    """name -> function(list) that edits the list IN PLACE (same python object afterwards)"""
+    from renormalizer.model import Op
+    def replace(h):
+        h[1] = Op("sigma_x", "s", 1.7)
+    def append(h):
+        h.append(Op("x", "v1", -0.9))
+    def iadd(h):
+        h += [Op("sigma_z x", ["s", "v2"], 0.45)]
+    def delete(h):
+        del h[0]
+    def rescale(h):
+        h[0] = h[0] * 3.0
+    return {"replace-one-term": replace, "append": append, "+=": iadd, "delete": delete, "rescale-one-term": rescale}
+
+
+def dense_of_ops(basis_list, ops):
+    """dense sum of the given Op list; every factor acts on the site that holds its dof (own dof -> site map, own grouping)"""
+    from renormalizer.model import Op
+    dims = [b.nbas for b in basis_list]
+    site_of = {}
+    for i, b in enumerate(basis_list):
+        for d in b.dofs:
+            site_of[d] = i
+    D = np.zeros((int(np.prod(dims)),) * 2, dtype=complex)
+    for op in ops:
+        per = {}
+        for sym, dof in zip(op.split_symbol, op.dofs):
+            per.setdefault(site_of[dof], ([], []))
+            per[site_of[dof]][0].append(sym)
+            per[site_of[dof]][1].append(dof)
+        mats = [np.eye(d, dtype=complex) for d in dims]
+        for i, (syms, dofs) in per.items():
+            b = basis_list[i]
+            if len(b.dofs) > 1:
+                mats[i] = np.asarray(b.op_mat(Op(" ".join(syms), dofs)), dtype=complex)
+            else:
+                m = np.eye(dims[i], dtype=complex)
+                for sy in syms:
+                    m = m @ np.asarray(b.op_mat(sy), dtype=complex)
+                mats[i] = m
+        D = D + op.factor * kron_all(mats)
+    return D
+
+
+# ---------------------------------------------------------------------------------------------------------------------------------
+# (3) the SAME Op objects used for models that group the degrees of freedom into sites differently
+
+def regroupings():
+    """name -> basis list over the dofs e0, e1 (electronic) and v (vibration)"""
+    from renormalizer.model import basis as ba
+    return {
+        "one-site-per-dof": [ba.BasisSimpleElectron("e0"), ba.BasisSimpleElectron("e1"), ba.BasisSHO("v", 1.1, 3)],
+        "multi-electron-site": [ba.BasisMultiElectron(["e0", "e1"], [1, 1]), ba.BasisSHO("v", 1.1, 3)],
+        "multi-electron-vac-site": [ba.BasisMultiElectronVac(["e0", "e1"]), ba.BasisSHO("v", 1.1, 3)],
+        "vibration-first": [ba.BasisSHO("v", 1.1, 3), ba.BasisSimpleElectron("e1"), ba.BasisSimpleElectron("e0")],
+    }
+
+
+def regroup_terms():
+    from renormalizer.model import Op
+    return [Op(r"a^\dagger a", ["e0", "e1"], 0.559, [1, -1]), Op(r"a^\dagger a", ["e1", "e0"], 0.559, [1, -1]), Op(r"a^\dagger a", ["e0", "e0"], 0.3, [1, -1]),
+            Op(r"a^\dagger a", ["e1", "e1"], -0.2, [1, -1]), Op(r"a^\dagger a x", ["e0", "e0", "v"], 0.25, [1, -1, 0]), Op("x^2", "v", 0.6), Op("p^2", "v", 0.5)]
